@@ -26,7 +26,8 @@ LEVEL = 'other'
 LEAN_MODULES = ['MpycV.Props.C05']
 LEAN_NAMESPACES = ['MpycV.C05']
 REQUIRED_THEOREMS = ['mul_value', 'norm_inv_mul', 'norm_inv_addNorm', 'add_renorm_core', 'normFactor_eval', 'neg_exact',
-                     'cmp_sign', 'io_exact', 'io_bound', 'output_zero_exponent', 'recip_normal', 'recip_clamp_exact', 'select_components']
+                     'cmp_sign', 'io_exact', 'io_bound', 'output_zero_exponent', 'recip_normal', 'recip_clamp_exact', 'select_components',
+                     'align_shift_cap_not_needed', 'align_shift_cap_out_of_range']
 RULE = ('case = (party configuration, type (s,e) in {(11,5),(24,8),(53,11)}, operation in {+,-,*,/ (secure and public float '
         'operand), <,<=,==,>=,>,!=, neg, abs, input/output}, operands): random significands (full double precision and s-bit), '
         'exponents within a quarter of the exponent range; adversarial: cancellation x + (-x(1+delta)), equal exponents, powers of '
@@ -419,6 +420,7 @@ def run(ctx):
     subset_outputs(ctx)
     placeholders(ctx)
     reciprocals(ctx)
+    narrow_exponent_types(ctx)
 
 
 SUBSET_LISTS = [[0.0, 3.5, -1250.0, 2.0 ** -7], [3.5, 0.0, 0.0], [0.0], [0.0, 0.0, 1.0], [-2.75, 1.5, 0.0, 96.0], [1024.0]]
@@ -550,6 +552,51 @@ def reciprocals(ctx):
                     return
 
 
+NARROW_TYPES = [(6, 2), (24, 4), (53, 5), (6, 3)]     # s - 1 >= 2^e - 1 for the first three: SecFlt(8) is the first
+
+
+def narrow_case(m, t, no_prss, se, pairs, seed):
+    """+, -, <, == on dyadic operands whose results are exactly representable: exact answers expected"""
+    async def program(mpc):
+        T = mpc.SecFlt(s=se[0], e=se[1])
+        out = []
+        for a, b in pairs:
+            x, y = T(a), T(b)
+            out.append([float(v) for v in await mpc.output([x + y, x - y, x < y, x == y])])
+        return out
+    try:
+        res = SimNet(m, t, no_prss=no_prss, seed=seed, sched=Scheduler(seed, 'random'), max_steps=6_000_000).run(program)
+    except (Deadlock, PartyError) as exc:
+        return f'secure float run over SecFlt(s={se[0]}, e={se[1]}) does not complete: {str(exc)[:300]}'
+    for (a, b), got in zip(pairs, res[0]):
+        want = [a + b, a - b, float(a < b), float(a == b)]
+        if got != want:
+            return (f'SecFlt(s={se[0]}, e={se[1]}): {a} (+, -, <, ==) {b} opens {got}, exact results {want} are representable '
+                    f'(the alignment shift min(e1 - e2, s-1) needs s-1 to be in range of the e-bit exponent type)')
+    if any(r != res[0] for r in res):
+        return 'parties obtain different results'
+    return None
+
+
+def narrow_exponent_types(ctx):
+    """types whose significand length exceeds the range of the exponent type (repo fix 1c40c3c), among them the DEFAULT
+    SecFlt(8): operands and results inside the tiny exponent range"""
+    rng = ctx.subrng('narrow')
+    vals = [1.0, 0.5, 0.25, 0.75, 0.375, -0.25, -0.5, -0.75, 1.25, 1.5]
+    ok = [(a, b) for a in vals for b in vals if all(abs(v) < 2 and not 0 < abs(v) < 0.125 for v in (a + b, a - b))]
+    for se in NARROW_TYPES:
+        for (m, t, no_prss) in ((1, 0, False), (3, 1, rng.random() < 0.5)):
+            pairs = rng.sample(ok, ctx.scale(6, 30) if m == 1 else ctx.scale(3, 10))
+            seed = rng.randrange(10**9)
+            msg = narrow_case(m, t, no_prss, se, pairs, seed)
+            ctx.case(('narrow', m, t, no_prss, tuple(se), seed), nontrivial=True)
+            ctx.count('op:narrow-exponent-type', 4 * len(pairs))
+            if msg:
+                ctx.violation('C05: ' + msg, {'kind': 'narrow', 'm': m, 't': t, 'no_prss': no_prss, 'se': list(se),
+                                              'pairs': [list(p_) for p_ in pairs], 'seed': seed})
+                return
+
+
 def placeholders(ctx):
     rng = ctx.subrng('placeholder')
     for (m, t) in ((3, 1), (2, 0)) + (((4, 1), (5, 2)) if ctx.thorough else ()):
@@ -606,6 +653,9 @@ def handle(ctx, r, items=None):
 
 
 def replay(ctx, data):
+    if data.get('kind') == 'narrow':
+        msg = narrow_case(data['m'], data['t'], data['no_prss'], tuple(data['se']), [tuple(p_) for p_ in data['pairs']], data['seed'])
+        return msg is None, msg or 'ok: exact sums, differences and comparisons'
     if data.get('kind') == 'reciprocal':
         msg = reciprocal_case(data['m'], data['t'], data['no_prss'], tuple(data['se']), data['xs'], data['seed'])
         return msg is None, msg or 'ok'
